@@ -215,6 +215,8 @@ class Runner:
                 ip.contracts[u.contract.qual] = u.contract
         for c in getattr(chk, 'stubs', []):
             ip.contracts[c.qual] = c
+        for q, c in getattr(self, 'call_site_overrides', {}).items():
+            ip.contracts[q] = c
         self.base_contracts = dict(ip.contracts)
         func_summaries = []
         t_start = time.time()
